@@ -46,12 +46,14 @@ CLAIMS = {
     "C10": dict(
         technique="contract-based deductive verification: non-interference obligations on the position flags passed "
                   "to nested renders (dependency on incoming position atoms), position table, z3",
-        level="proof",
+        level="other",
         text="In every statement builder (all dialect classes, set operations) no position flag passed to any nested "
-             "render depends on the embedding position of the statement (nonint/flags); embedding sites pass the "
-             "flags the position table prescribes (embed/site).",
+             "render depends on the embedding position of the statement (nonint/flags, incl. the namespace decision for set operations); embedding sites pass "
+             "the flags the position table prescribes (embed/site); substituting each position flag in the symbolic "
+             "text of every statement builder changes it only by the enclosing brackets / the alias suffix "
+             "(nonint/text).",
         note=TRUST + "Position table contracts/spec/positions.py transcribes the property. Placeholder renumbering "
-                     "is C04.",
+                     "is C04. Known finding: PostgreSQL RETURNING after the sub-query brackets.",
         design="§4.4, §5 C10"),
     "C11": dict(
         technique="contract-based deductive verification: qualification rule NS(self) written as a specification "
@@ -69,9 +71,10 @@ CLAIMS = {
         level="other",
         text="Every operand site inside expression nodes and every clause site passes with_alias as the position "
              "table prescribes (alias/site); each Term class prints its alias as a suffix exactly when with_alias "
-             "(alias/class-on, alias/class-off). Refuted class obligations (classes that always/never print the "
+             "(alias/class-on, alias/class-off); GROUP BY / ORDER BY print an alias reference only under "
+             "membership in the aliases of the select list computed at render time (alias/ref). Refuted class obligations (classes that always/never print the "
              "alias, pinned by existing tests) are known findings.",
-        note=TRUST + "GROUP BY / ORDER BY alias references (alias/ref) are not yet under contract.",
+        note=TRUST + "Known findings: classes that always / never print their alias (pinned by tests).",
         design="§5 C12"),
     "C04": dict(
         technique="contract-based deductive verification: evaluation-order vs text-order obligations (O-LINEAR) on "
@@ -80,7 +83,8 @@ CLAIMS = {
         text="In every render function each nested render that is evaluated contributes its text exactly once "
              "(linear/once) and nested renders are evaluated in text order (linear/order); ValueWrapper/Array append "
              "exactly their value when a parameterizer is installed (param/leaf); only the leaf methods read the "
-             "parameterizer (linear/guard-independence); the placeholder table matches the dialect table "
+             "parameterizer (linear/guard-independence); Parameterizer.create_param appends exactly the value on every "
+             "returning path and returns a new Parameter (param/create); the placeholder table matches the dialect table "
              "(param/table); no builder wraps a query-builder object in a constant wrapper (param/plain-data). "
              "L-LINEAR (paper) lifts this to whole statements.",
         note=TRUST + "Known findings: Column default of a non-Term node, Array.original_value may hold terms. "
@@ -102,19 +106,24 @@ CLAIMS = {
         technique="contract-based deductive verification: compositional bracket-balance and clause-order analysis of "
                   "the symbolic result shape of every render function / statement builder; completeness spec "
                   "evaluated by the same engine; z3",
-        level="proof",
+        level="other",
         text="Every render function's text is bracket-balanced (wf/balanced); in every statement builder the clause "
              "keywords at depth 0 occur at most once and in the dialect's order for every feasible combination of "
-             "optional clauses (wf/order, pairwise feasibility by z3); an incomplete builder renders '' (wf/empty).",
-        note=TRUST + "NOT covered by this check: commutation of calls addressing different clauses (commute/pair) and "
-                     "acceptance by SQLite's parser; the claim is limited to the well-formedness half of the property.",
+             "optional clauses (wf/order, pairwise feasibility by z3); an incomplete builder renders '' (wf/empty); "
+             "builder methods addressing different clauses satisfy Bernstein's conditions on the read/write sets of "
+             "their real bodies (commute/reads, commute/writes) - where the conditions fail, a bounded witness search "
+             "on the real code decides between a violation with input and a bounded stand-in.",
+        note=TRUST + "Bounded stand-ins (commutation cases where Bernstein's conditions fail and no order dependence "
+                     "was found) are labelled bounded and not counted as proved; 15 genuine order dependences are "
+                     "known findings. Acceptance by SQLite's parser is not covered.",
         design="§5 C13"),
     "C16": dict(
         technique="contract-based deductive verification: render-slots derived from the real get_sql compared with "
                   "the slots rebuilt by the real replace_table, path-sensitively (z3); frame obligations of C01",
         level="proof",
         text="For every class, on every returning path of replace_table each rendered child slot is rebuilt by a "
-             "nested replace_table call or by assignment of the new table (slots/replace); every receiver of a nested "
+             "nested replace_table call or by assignment of the new table, and the rebuilt value is stored in that "
+             "slot of the returned object (slots/replace); every receiver of a nested "
              "call has the method (slots/callee); the receiver is untouched and the result is new (slots/frame).",
         note=TRUST + "The homomorphism lemma (slot-wise replacement = construction with the new table) is a paper "
                      "argument.",
@@ -125,7 +134,7 @@ CLAIMS = {
         level="proof",
         text="x == x; == is a conjunction of same-attribute equalities (equivalence); != is its negation; the "
              "attributes a hash reads are among those equality compares (eq/hash); tables_/fields_()/find_ are the "
-             "full node collections (collect/complete); nodes_() traverses every rendered slot (collect/nodes); the "
+             "full node collections (collect/complete); nodes_() traverses every rendered slot on every path (collect/nodes); the "
              "Field hash key determines (table, name) (collect/dedup - known finding).",
         note=TRUST + "Known finding: Field de-duplication through the rendered text.",
         design="§5 C17"),
@@ -161,7 +170,9 @@ CLAIMS = {
         level="other",
         text="In every render function of every class each name-typed datum reaches the text only through "
              "format_quotes with the quote character of the context (alias: the alias quote character) "
-             "(quote/site); format_quotes wraps and doubles (quote/func - known finding: no doubling); no SQL "
+             "(quote/site); no package object is formatted through str() inside a render (quote/str-bypass); "
+             "constructors store name arguments unmodified (name/store); format_quotes wraps and doubles (quote/func - "
+             "known finding: no doubling); no SQL "
              "template is computed from data (quote/template); the dialect contexts carry the dialect's quote "
              "characters (quote/ctx-consts).",
         note=TRUST + "Known findings: format_quotes does not double an embedded quote character; CTE names and "
